@@ -21,6 +21,10 @@ def gen_case(rng):
     S, D = c["schema"], c["frame"]
     S["dropInvalid"] = True
     c03.unique_labels(D)     # C11 quantifies over frames with a unique index
+    # components written for stand-alone use carry the flag themselves; inside the dataframe schema that changes nothing
+    for sp in S["columns"] + ([S["index"]] if S["index"] is not None else []):
+        if rng.random() < 0.25:
+            sp["componentDrop"] = True
     # a slice / chunk of a larger frame: a RangeIndex that does not start at 0 or has a step
     if rng.random() < 0.3 and len(D["index"]) == 1 and D["index"][0]["dtype"] == "int64":
         start, step = rng.choice([(1, 1), (3, 1), (0, 2), (2, 3), (5, 1)])
@@ -166,7 +170,7 @@ def index_bad_rows(ix, level):
     """positions flagged by the index schema (nullability, uniqueness, checks), evaluated with pandera itself"""
     import pandera as pa
     s = A.series_of(level["vals"], level["dtype"])
-    spec = dict(ix, name=None, coerce=False)
+    spec = dict(ix, name=None, coerce=False, componentDrop=False)
     schema = A.series_schema_of(spec)
     try:
         with warnings.catch_warnings():
@@ -349,6 +353,41 @@ def run_entries(rep, rng, n):
                                      detail={"valid_rows_dropped": missing, "invalid_rows_kept": extra})
 
 
+def extension_sweep(rep):
+    """nullable extension dtypes: a missing value in a non-nullable column is a row-level violation like any other"""
+    import pandera as pa
+    for dt, vals in (("Int64", [1, None, 3, None]), ("Int8", [None, 2, 3]), ("UInt16", [1, 2, None]),
+                     ("boolean", [True, None, False]), ("Float64", [1.5, None]), ("string", ["x", None, "y"]),
+                     ("float64", [1.0, float("nan"), 2.0]), ("int64[pyarrow]", [1, None])):
+        try:
+            ser = pd.Series(vals, dtype=dt, name="a", index=[f"r{i}" for i in range(len(vals))])
+        except Exception:  # noqa: BLE001
+            continue
+        want = [i for i, v in enumerate(ser.isna().tolist()) if not v]
+        df = pd.DataFrame({"a": ser})
+        entries = {
+            "DataFrameSchema": lambda: pa.DataFrameSchema({"a": pa.Column(None)}, drop_invalid_rows=True).validate(df.copy(), lazy=True),
+            "Column": lambda: pa.Column(None, name="a", drop_invalid_rows=True).validate(df.copy(), lazy=True),
+            "SeriesSchema": lambda: pa.SeriesSchema(None, name="a", drop_invalid_rows=True).validate(ser.copy(), lazy=True),
+        }
+        for entry, fn in entries.items():
+            case = {"entries": True, "extension": dt, "entry": entry}
+            with warnings.catch_warnings():
+                warnings.simplefilter("ignore")
+                try:
+                    out = fn()
+                except Exception as e:  # noqa: BLE001
+                    rep.count(f"extension:{entry}:{type(e).__name__}")
+                    rep.property_failure(case, f"{entry} over {dt} with a missing value and drop_invalid_rows raised "
+                                               f"{type(e).__name__}: {str(e)[:80]}")
+                    continue
+            got = [ser.index.tolist().index(x) for x in out.index.tolist()]
+            rep.evaluations += 1
+            rep.count(f"extension:{entry}:ok")
+            if got != want:
+                rep.property_failure(case, f"{entry} over {dt}: surviving rows {got}, the rows without a missing value are {want}")
+
+
 def entry_region(c, a, missing, extra):
     """K_C11_nullDuplicates only: a kept row whose duplicated value is null"""
     if missing or not extra:
@@ -375,6 +414,7 @@ def run(tier, replay=None):
             pass
         elif case.get("entries"):
             run_entries(rep, rng_for(PROP, "entries"), 300)
+            extension_sweep(rep)
         else:
             run_cases(rep, [case])
         return rep.finish(rule="replay")
@@ -382,6 +422,7 @@ def run(tier, replay=None):
     run_cases(rep, [c for c in corpus_cases(PROP) if c.get("backend") != "polars"] + [gen_case(rng) for _ in range(n)])
     run_polars(rep, rng, n // 4)
     run_entries(rep, rng_for(PROP, "entries"), 300 if tier == "quick" else 6000)
+    extension_sweep(rep)
     return rep.finish(
         rule="C03's generator with drop_invalid_rows=True, lazy validation and a unique index (int and str labels, "
              "labels with quotes): surviving positions (recovered through the labels) vs the positions on which every "
